@@ -63,6 +63,21 @@ def write(classes):
                 protos.add((ret, tuple(params)))
                 methods.add((c["name"], n, (ret, tuple(params))))
                 strings.add(n)
+    # items referenced from code only (invoked / accessed / loaded, possibly external): c["refs"] = dict(strings=[...], types=[...],
+    # fields=[(class, name, type)], methods=[(class, name, (ret, (params...)))])
+    for c in classes:
+        r = c.get("refs") or {}
+        strings.update(r.get("strings", []))
+        types.update(r.get("types", []))
+        for (fc, fn, ft) in r.get("fields", []):
+            fields.add((fc, fn, ft))
+            types.update([fc, ft])
+            strings.add(fn)
+        for (mc, mn, (ret, params)) in r.get("methods", []):
+            protos.add((ret, tuple(params)))
+            methods.add((mc, mn, (ret, tuple(params))))
+            types.add(mc)
+            strings.add(mn)
     for ret, params in protos:
         types.add(ret)
         types.update(params)
@@ -122,6 +137,8 @@ def write(classes):
                 code_off[k] = here()
                 code_items.append(here())
                 insns = code["insns"]
+                if callable(insns):       # code that refers to pool indices: assembled once the indices are known
+                    insns = insns(dict(strings=si, types=ti, fields=fi, methods=mi))
                 data += struct.pack("<HHHHII", code["registers"], code["ins"], code["outs"], 0, 0, len(insns) // 2) + insns
     # class data
     cd_off, cd_items = {}, []
